@@ -286,7 +286,7 @@ from harness.ffgen import multi_res_block, block_text_itp, simple_block, block_t
 
 @condition("C10.fragments",
            anchors=["polyply.src.graph_utils:find_missing_edges"],
-           rejects=(), selector_only=True, must_cover=["junction missing", "junction linked"],
+           rejects=(), selector_only=True, must_cover=["junction missing", "junction linked", "atoms of a residue not contiguous in the block"],
            stubs=["apply_links.tqdm -> plain iteration"],
            bounds={"quick": dict(), "thorough": dict()})
 def fragments(sx, B):
@@ -295,14 +295,20 @@ def fragments(sx, B):
     exactly when no atom-level edge joins it, although both residues carry the same from_itp label."""
     link = sx.sel("junction_link", [False, True])
     tail = sx.sel("regular_residue_after", [False, True])
-    mspec = multi_res_block("MUL")
+    interleaved = sx.sel("atoms_of_the_block_listed", ["residue by residue", "with the second residue in between"]) != "residue by residue"
+    if interleaved:
+        sx.cover("atoms of a residue not contiguous in the block")
+    mspec = multi_res_block("MUL", interleaved=interleaved)
     texts = [("itp", block_text_itp(mspec)), ("ff", block_text_ff(simple_block("A", 1)))]
     if link:
         texts.append(("ff", '[ link ]\nresname "MB|MA"\n[ bonds ]\nm3 {"resname": "MB"} +m1 {"resname": "MA"} 1 0.4 400\n'))
     ff = parse_ff(texts)
-    names = ["MA", "MB", "MA", "MB"] + (["A"] if tail else [])
+    # (the interleaved block is used once: a second copy of such a block is numbered wrongly by the merge step of the pinned
+    # tree - residue numbers continue from the last atom's residue instead of the highest one - which is outside this property)
+    ncopy = 1 if interleaved else 2
+    names = ["MA", "MB"] * ncopy + (["A"] if tail else [])
     n = len(names)
-    fi = {i: ("MUL" if i < 4 else None) for i in range(n)}
+    fi = {i: ("MUL" if i < 2 * ncopy else None) for i in range(n)}
     meta = residue_graph(n, [(i, i + 1) for i in range(n - 1)], names, [i + 1 for i in range(n)], from_itp=fi, ff=ff)
     MapToMolecule(ff).run_molecule(meta)
     with patched(al, tqdm=_Tqdm):
@@ -312,7 +318,8 @@ def fragments(sx, B):
     joined = set(frozenset((resid_of[a], resid_of[b])) for a, b in mol.edges if resid_of[a] != resid_of[b])
     want = sorted(sorted((i + 1, i + 2)) for i in range(n - 1) if frozenset((i + 1, i + 2)) not in joined)
     got = sorted(sorted((m["idxA"], m["idxB"])) for m in find_missing_edges(meta, mol))
-    sx.cover("junction linked" if frozenset((2, 3)) in joined else "junction missing")
+    if not interleaved:
+        sx.cover("junction linked" if frozenset((2, 3)) in joined else "junction missing")
     sx.claim(got == want, "the junction between two copies of a multi-residue block is reported exactly when nothing joins it",
              lambda: "link %r: reported %r expected %r" % (link, got, want))
 
